@@ -7,6 +7,10 @@ SIGTERM or SIGINT at a random offset while traffic is in flight, and check
   both cache files are complete JSON documents holding every template sent >= 300 ms before the signal,
 then restart on the same cache files, send data only (no templates) and require it to be decoded at
 once (the published JSON appears in the verbose log), and stop again.
+
+Further cycles of C15: stalled stops (the process frozen during the grace period, stall_cycle), early stops (the signal
+arrives while run() is still loading a large cache file of the previous run, early_stop_cycle) and same-PID restarts
+(stop/start in PID namespaces with the pid file kept, same_pid_cycle).
 """
 import json, os, random, signal, socket, struct, subprocess, sys, time, shutil, urllib.request
 import check as C
@@ -666,6 +670,10 @@ def early_stop_cycle(n, seed, binary, params=None):
         sample.update({"exit": rc, "latency_s": round(lat, 2)})
         what = "%s %.2fs after %r%s" % (sig.name, offset, RUNNING_LINE[proto].decode() + " …", (" and a %.2fs freeze" % stall_s) if stall_s else "")
         bad = [w for w in ("panic:", "fatal error", "DATA RACE", "send on closed channel") if w in log1]
+        if rc == 1 and "address already in use" in log1:
+            # the signal is sent before all listeners are bound: a port picked by the harness was taken by another process
+            # meanwhile and the collector ended itself with logger.Fatal: no verdict
+            return "not-started", "", sample
         if rc != 0:
             return "exit=%s" % rc, "fail:exit status %s after %s (latency %.1fs): %s" % (rc, what, lat, log1[-300:].replace("\n", " | ")), sample
         if bad:
